@@ -414,6 +414,7 @@ def all_queries():
     qs = list(battery())
     qs += memo_actions(KEYS_Q, False) + memo_actions(KEYS_T, True) + broad_queries()
     qs += [Q("mingus.extra.fft", "_find_log_index", FL(x)) for x in fft_inputs("thorough")]
+    qs += fft_note_queries()
     out, seen = [], set()
     for q in qs:
         if qkey(q) not in seen:
@@ -783,11 +784,24 @@ def fft_battery():
         tab = fft_table()
         table = [T(FL(tab[127]), FL(1.0)), T(FL(tab[128] * 1.5), FL(0.5)), T(FL(tab[60]), FL(0.25)), T(FL(tab[60] * 1.001), FL(2.0)),
                  T(FL(tab[0] * 0.5), FL(1.0)), T(FL(tab[128]), FL(1.0)), T(FL(tab[100] * 0.999), FL(1.0))]
-        FFT_BATTERY = [Q("mingus.extra.fft", "find_notes", table), Q("mingus.extra.fft", "find_notes", FREQ_TABLE)]
+        FFT_BATTERY = [Q("mingus.extra.fft", "find_notes", table), Q("mingus.extra.fft", "find_notes", FREQ_TABLE)] + fft_note_queries()
     return FFT_BATTERY
 
 
 _FFT_WANT = {}
+_FFT_NOTE_QUERIES = []
+
+
+def fft_note_queries():
+    """find_notes on small partial tables, with the default and with other note limits (a high partial included)"""
+    if not _FFT_NOTE_QUERIES:
+        tab = fft_table()
+        high = [T(FL(tab[60]), FL(1.0)), T(FL(tab[110]), FL(0.5)), T(FL(tab[125] * 0.999), FL(0.25)), T(FL(tab[127]), FL(0.125))]
+        low = [T(FL(440.0), FL(1.0)), T(FL(220.0), FL(0.5))]
+        _FFT_NOTE_QUERIES.extend([Q("mingus.extra.fft", "find_notes", high, 128), Q("mingus.extra.fft", "find_notes", high, 200),
+                                  Q("mingus.extra.fft", "find_notes", low, 60), Q("mingus.extra.fft", "find_notes", low),
+                                  Q("mingus.extra.fft", "find_notes", high)])
+    return _FFT_NOTE_QUERIES
 
 
 class FftSpec(BfsSpec):
@@ -807,12 +821,25 @@ class FftSpec(BfsSpec):
 
     def actions(self):
         if self._acts is None:
-            self._acts = [["f", x.hex()] for x in fft_inputs(self.tier)]
+            self._acts = [["f", x.hex()] for x in fft_inputs(self.tier)] + [["notes", i] for i in range(len(fft_note_queries()))]
         return self._acts
 
     def step(self, st, act, check=True):
         S = engine.S
         st.key = None
+        if act[0] == "notes":
+            # a whole analysis (find_notes) with its own table and note limit: its answer, too, is a function of
+            # its arguments, and whatever it leaves behind is part of the state explored from here
+            q = fft_note_queries()[act[1]]
+            ok, val, _args = call_query(q)
+            if check:
+                S.trans(1)
+                want = cold_answer(q)["r"]
+                if render(val) != want:
+                    S.problem("fft.find_notes (query %d: table of %d partials, max_note %s)" % (act[1], len(q["a"][0]) if isinstance(q.get("a"), list) and q["a"] else -1,
+                                                                                        q["a"][1] if len(q.get("a", [])) > 1 else "default"),
+                              want, render(val), detail="analysis depends on previous analyses / lookups", tags={"kind": "fft-notes"})
+            return
         f = float.fromhex(act[1])
         fn = _lib("mingus.extra.fft")._find_log_index
         try:
@@ -840,7 +867,7 @@ class FftSpec(BfsSpec):
         S.outcome("fft-state=%s" % (str(key)[:12],))
         hist = (S.current_case or {}).get("history") if isinstance(S.current_case, dict) else None
         if hist and len(hist) >= 2:
-            S.sample({"lookups": [float.fromhex(a[1]) for a in hist], "cursor": render(la)})
+            S.sample({"lookups": [float.fromhex(a[1]) if a[0] == "f" else "find_notes query %d" % a[1] for a in hist], "cursor": render(la)})
         if battery_known_ok("fft", key):
             return
         bad = compare_battery(FFT_SPACE, fft_battery(), "fft battery")
@@ -863,7 +890,7 @@ def _memo_runner(case):
 
 def _fft_runner(case):
     spec = FftSpec(case["tier"])
-    ensure_cold(fft_battery() + [Q("mingus.extra.fft", "_find_log_index", {"hex": a[1]}) for a in case["history"]])
+    ensure_cold(fft_battery() + [Q("mingus.extra.fft", "_find_log_index", {"hex": a[1]}) for a in case["history"] if a[0] == "f"])
     engine.bfs_execute(spec, case["history"], check_prefix=True)
 
 
